@@ -46,11 +46,16 @@ def map_case(cid, clsname, rows, queries):
             st = list(zip(m.vrnt_chrgrp.tolist(), m.vrnt_phypos.tolist(), np.rint(np.asarray(m.vrnt_genpos) * G).astype(int).tolist()))
             c["sorted"] = [list(map(int, r)) for r in st]
             c["congr"] = bool(m.is_congruent())
-            qs = sorted(queries, key=lambda q: q[0])
+            order = sorted(range(len(queries)), key=lambda k: queries[k][0])
+            qs = [queries[k] for k in order]
             c["q"] = [list(q) for q in qs]
             qc = np.array([q[0] for q in qs], dtype="int64"); qp = np.array([q[1] for q in qs], dtype="int64")
             ok = [True]; dok = [True]
-            iv = np.asarray(m.interp_genpos(qc, qp), dtype=float)
+            # interpolation is asked in the caller's order (chromosome labels interleaved); the distance functions below
+            # document grouped input and get the grouped listing
+            rc = np.array([q[0] for q in queries], dtype="int64"); rp = np.array([q[1] for q in queries], dtype="int64")
+            iv_raw = np.asarray(m.interp_genpos(rc, rp), dtype=float)
+            iv = iv_raw[order] if iv_raw.shape == (len(queries),) else iv_raw
             c["im"] = [bool(np.isnan(x)) for x in iv]
             c["iv"] = lat(np.where(np.isnan(iv), 0.0, iv), S * G, ok).tolist(); c["ilat"] = ok[0]
             d1 = np.asarray(m.gdist1g(m.vrnt_chrgrp, m.vrnt_genpos), dtype=float)
